@@ -6,6 +6,7 @@ import (
 	"crypto/cipher"
 	"crypto/elliptic"
 	"crypto/hmac"
+	crand "crypto/rand"
 	"crypto/rsa"
 	"crypto/sha256"
 	"fmt"
@@ -27,7 +28,7 @@ func init() {
 		Rule: "RateLimitedIssuer.Evaluate(bytes) on requests built two ways: by pat-go's client, and entirely by the harness (own encoder, own HPKE sealing with the AAD of the draft, own key-blinded signer over crypto/ecdsa). Honest requests for a registered origin must be served and the response must finalize to a token valid under rsa.VerifyPSS. " +
 			"Must be rejected with an error and a nil response: every single-bit flip of an accepted encoding (exhaustive), every truncation, a trailing byte, a missing signature, unregistered origins (near misses of the registered names), requests sealed to another issuer's name key (key id kept and replaced), requests re-signed by an unrelated key, request key replaced and correctly re-signed (only the AAD binding catches it), AAD variants that drop or alter one component, inner requests truncated before encryption (with the empty origin registered). " +
 			"Differential part: on an issuer whose name key is derived from a seed known to the harness (verif-tagged hook) the harness decides every generated input itself (own parser, own HPKE open through go-hpke, own unpadding, origin lookup, crypto/ecdsa) - multi-bit and byte mutations, field splices between honest requests with and without re-signing, replaced-and-re-signed name key ids, (r, N-s), padded-origin and inner-request variants, foreign name keys, altered AADs - and Evaluate must agree. distinct_nontrivial = distinct (request, tampering class, position) and (class, reference reason) keys",
-		Floors:      []string{"served_pat_go_client", "served_harness_built", "response_finalized_valid", "bitflips_rejected", "truncations_rejected", "unregistered_origin_rejected", "foreign_name_key_rejected", "resigned_rejected", "aad_binding_rejected", "inner_truncated_rejected", "differential_agree_accept", "differential_agree_reject", "differential_reject_signature", "differential_reject_hpke-open", "differential_reject_unregistered-origin", "differential_reject_outer-parse"},
+		Floors:      []string{"served_pat_go_client", "served_harness_built", "response_finalized_valid", "bitflips_rejected", "truncations_rejected", "unregistered_origin_rejected", "foreign_name_key_rejected", "resigned_rejected", "aad_binding_rejected", "inner_truncated_rejected", "failed_registration_origin_rejected", "differential_agree_accept", "differential_agree_reject", "differential_reject_signature", "differential_reject_hpke-open", "differential_reject_unregistered-origin", "differential_reject_outer-parse"},
 		Assumptions: []string{"enumerated part: acceptance is fixed by construction of each case; differential part: the issuer's name key comes from a known seed through the verif hook", "an inner request with trailing bytes after the padded origin is only counted (no rule in the statement)"},
 		Run:         runC07,
 	})
@@ -244,6 +245,37 @@ func runC07(c *core.Ctx) {
 	w.nkO, err = parseNameKey(w.other.NameKey().Marshal())
 	must(err)
 	w.keyID = w.issuer.TokenKeyID()
+
+	// a registration that failed: AddOrigin returned an error (the entropy source failed while the index key was
+	// generated), so the origin is NOT registered; a request for it is refused like any unregistered origin, and
+	// the origins registered before and after stay served
+	for fi, okBytes := range []int{0, 1, 16, 47, 48} {
+		if !c.Next() {
+			continue
+		}
+		r := c.CaseRng()
+		iss := type3.NewRateLimitedIssuer(w.key)
+		iss.AddOrigin("before.example")
+		failed := fmt.Sprintf("failed-registration-%d.example", fi)
+		var aerr error
+		pan, pv, where := core.Guard(func() { withFailingEntropy(okBytes, func() { aerr = iss.AddOrigin(failed) }) })
+		iss.AddOrigin("after.example")
+		if pan {
+			c.Violation("AddOrigin:panic:"+where, "AddOrigin panicked when the entropy source failed: "+pv, map[string]any{"entropy_bytes_before_failure": okBytes})
+			continue
+		}
+		if aerr == nil {
+			c.Class("entropy_fault_registration_still_succeeded")
+			continue
+		}
+		nkF, err := parseNameKey(iss.NameKey().Marshal())
+		must(err)
+		wf := &c07World{c: c, key: w.key, issuer: iss, other: w.other, nk: nkF, nkO: w.nkO, keyID: iss.TokenKeyID()}
+		wf.mustReject(wf.build(r, c07Opts{origin: failed}).enc, "origin-whose-registration-failed", "failed_registration_origin_rejected")
+		wf.mustServe(wf.build(r, c07Opts{origin: "before.example"}), "registered-before-a-failed-registration")
+		wf.mustServe(wf.build(r, c07Opts{origin: "after.example"}), "registered-after-a-failed-registration")
+		c.Distinctf("failed-registration:%d", okBytes)
+	}
 
 	nHonest := c.Pick(6, 60)
 	for hi := 0; hi < nHonest; hi++ {
@@ -599,4 +631,35 @@ func c07Differential(c *core.Ctx) {
 			c.Sample("differential case", map[string]any{"origin": origin, "request_len": len(a.enc)})
 		}
 	}
+}
+
+// failingReader yields n bytes and then fails for good.
+type failingReader struct {
+	n int
+	r *core.Rand
+}
+
+func (f *failingReader) Read(p []byte) (int, error) {
+	if f.n <= 0 {
+		return 0, fmt.Errorf("entropy source unavailable")
+	}
+	k := len(p)
+	if k > f.n {
+		k = f.n
+	}
+	f.r.Read(p[:k])
+	f.n -= k
+	if k < len(p) {
+		return k, fmt.Errorf("entropy source unavailable")
+	}
+	return k, nil
+}
+
+// withFailingEntropy runs f while crypto/rand.Reader yields okBytes bytes and then fails (fault injection at the
+// process's entropy source; the worker runs one case at a time, nothing else reads it meanwhile).
+func withFailingEntropy(okBytes int, f func()) {
+	saved := crand.Reader
+	crand.Reader = &failingReader{n: okBytes, r: core.NewRand(int64(okBytes), "failing-entropy")}
+	defer func() { crand.Reader = saved }()
+	f()
 }
